@@ -197,10 +197,15 @@ func (pit *pebbleIterator) Seek(id []byte) error {
 func (pit *pebbleIterator) SeekReverse(id []byte) error {
 	pit.forward = false
 	if !pit.iter.SeekGE(id) {
-		return io.EOF
+		//every key is below id: the greatest key is the answer
+		if !pit.iter.Last() {
+			return io.EOF
+		}
 	}
 	if bytes.Compare(id, pit.iter.Key()) < 0 {
-		pit.iter.Prev()
+		if !pit.iter.Prev() {
+			return io.EOF
+		}
 	}
 	pit.key = copyBytes(pit.iter.Key())
 	pit.value = copyBytes(pit.iter.Value())
